@@ -130,6 +130,10 @@ RoutedSafe == Judge => \A h \in 1..Len(pre.h) : \A x \in Rng(pre.h[h].del) :
                           /\ InOrder(From(pre.h[h].del, x[1]))
 \* a reply reaches exactly the client it was addressed to
 RepliesRouted == Calm => \A c \in 1..NC : pre.cl[c].rx = rep[c]
+\* a reply written through a live handle to the address of a connection that is attached to that handle's packet connection and
+\* still open is accepted (whatever was done to other handles of the same packet connection)
+ReplyAccepted == (Calm /\ ev.ev = "Reply" /\ ev.h \in 1..Len(hs) /\ ev.c \in 1..NC) =>
+                   ((hs[ev.h].live /\ cs[ev.c].st = "att" /\ cs[ev.c].gen = hs[ev.h].gen /\ ~pre.cl[ev.c].sc) => ev.ok)
 \* first frame and all later packets of a connection are delivered on the packet connection of its ufrag
 RoutedComplete == Calm => \A c \in 1..NC :
                      (cs[c].st = "att" /\ ~pre.cl[c].sc /\ reg[UfragOf(beh[c])].st = "claimed" /\ reg[UfragOf(beh[c])].gen = cs[c].gen)
@@ -139,7 +143,7 @@ RoutedComplete == Calm => \A c \in 1..NC :
 HandleAlive == Calm => \A h \in 1..NH : hs[h].live => ~pre.h[h].closed
 \* the mux closes a TCP connection only for a reason the statement gives
 NoSpuriousClose == Calm => \A c \in 1..NC : pre.cl[c].sc => cs[c].cause
-RoutedByFirstUfrag == RoutedSafe /\ RepliesRouted /\ RoutedComplete /\ HandleAlive /\ NoSpuriousClose
+RoutedByFirstUfrag == RoutedSafe /\ RepliesRouted /\ ReplyAccepted /\ RoutedComplete /\ HandleAlive /\ NoSpuriousClose
 \* bad, missing or late first frame: closed
 MustBy(reasons) == Calm => \A c \in 1..NC : cs[c].must \in reasons => pre.cl[c].sc
 BadFirstFrameClosed == MustBy({"bad", "late", "eof"})
@@ -157,7 +161,7 @@ CloseCompletes ==
 GetAfterClose == (ev.ev = "Get" /\ ~gf) => (ev.ok <=> closeAt < 0)
 
 P(n) == CASE n = "RoutedByFirstUfrag" -> RoutedByFirstUfrag []
-             n = "RoutedSafe" -> RoutedSafe [] n = "RepliesRouted" -> RepliesRouted [] n = "RoutedComplete" -> RoutedComplete []
+             n = "RoutedSafe" -> RoutedSafe [] n = "RepliesRouted" -> RepliesRouted [] n = "ReplyAccepted" -> ReplyAccepted [] n = "RoutedComplete" -> RoutedComplete []
              n = "HandleAlive" -> HandleAlive [] n = "NoSpuriousClose" -> NoSpuriousClose []
              n = "BadFirstFrameClosed" -> BadFirstFrameClosed []
              n = "ProvisionalExpires" -> ProvisionalExpires []
